@@ -90,6 +90,8 @@ def run(ctx):
             r4.ok("%s -> %s(radix = %d)" % (fn.path, tgt.path, v), fn, t.get("line"))
         elif own is not None and common.place_local(a) is not None and common.copy_of_param(fn, common.place_local(a), own):
             r4.ok("%s -> %s(radix = own parameter)" % (fn.path, tgt.path), fn, t.get("line"))
+        elif _radix_from_table_fn(lexpr, fn, a):
+            r4.ok("%s -> %s(radix = result of a local function that only returns 2, 8, 10 or 16)" % (fn.path, tgt.path), fn, t.get("line"))
         else:
             r4.violation(fn.path, "radix-arg->%s" % tgt.path,
                          "%s passes a radix to %s that is neither one of the constants 2/8/10/16 nor its own radix "
@@ -121,6 +123,42 @@ def run(ctx):
 
     if ctx.tier == "thorough":
         thorough(ctx, db, lexpr, surf)
+
+
+def _radix_from_table_fn(lexpr, fn, a):
+    """`match radix_of_prefix(c) { Some(radix) => parse(radix), .. }`: the argument is the Some-payload of a call to
+    a local function over scalars whose every `Some(..)` / plain return is one of the constants 2, 8, 10, 16."""
+    from .. import lex
+    defs = common.defs_of(fn)
+    o = common.origin(fn, defs, a)
+    src = None
+    if o["k"] == "place" and any(isinstance(e, dict) and e.get("n") == "Some" for e in o["pl"]["p"]):
+        ds = defs.get(o["pl"]["l"], [])
+        if len(ds) == 1 and ds[0][1] == "term":
+            src = ds[0][2]
+    elif o["k"] == "call":
+        src = o["t"]
+    if src is None:
+        return False
+    g = lexpr.fn(src["callee"].get("resolved") or src["callee"].get("path") or "")
+    if g is None or not lex.scalar_fn(g):
+        return False
+    consts = []
+    for b in g.blocks:
+        if b.get("cleanup"):
+            continue
+        for st in b["stmts"]:
+            if st["k"] != "assign" or st["place"]["p"] or st["place"]["l"] != 0:
+                continue
+            rv = st["rv"]
+            if rv["k"] == "agg" and rv.get("adt", "").endswith("Option"):
+                if rv.get("variant") == 1:
+                    consts.append(common.const_int(rv["fields"][0]))
+            elif rv["k"] == "use":
+                consts.append(common.const_int(rv["op"]))
+            else:
+                return False
+    return bool(consts) and all(c in (2, 8, 10, 16) for c in consts)
 
 
 def thorough(ctx, db, lexpr, surf):
